@@ -201,6 +201,38 @@ def work_generated(seed, n):
     return part
 
 
+def work_nullability():
+    """Exhaustive: dataset-dataset operators x identifier-set relation (equal / left subset / right subset) x declared nullability of the
+    measure on each side x which side actually holds a null."""
+    warnings.filterwarnings("ignore")
+    part = core.Part()
+    import itertools
+    ids_full = [eng.comp("Id_1", "Integer", "I"), eng.comp("Id_2", "String", "I")]
+    for op, rel, ln, rn, two in itertools.product(["+", "*", ">", "="], ["equal", "left_subset", "right_subset"], [True, False], [True, False], [False, True]):
+        lids = ids_full[:1] if rel == "left_subset" else ids_full
+        rids = ids_full[:1] if rel == "right_subset" else ids_full
+        meas = ["Me_1", "Me_2"] if two and op in "+*" else ["Me_1"]
+        lc = lids + [eng.comp(m, "Number", "M", ln) for m in meas]
+        rc = rids + [eng.comp(m, "Number", "M", rn) for m in meas]
+        def rows(idc, nullable, base):
+            out = []
+            for i in (1, 2):
+                for j in (["a", "b"] if len(idc) == 2 else [None]):
+                    r = {"Id_1": i}
+                    if j is not None:
+                        r["Id_2"] = j
+                    for m in meas:
+                        r[m] = None if nullable and i == 1 else float(base + i)
+                    out.append(r)
+            return out
+        S = eng.structures(eng.structure("DS_1", lc), eng.structure("DS_2", rc))
+        script = "R <- DS_1 %s DS_2;" % op
+        dps = {"DS_1": eng.frame(lc, rows(lids, ln, 0)), "DS_2": eng.frame(rc, rows(rids, rn, 10))}
+        evaluate(part, "generated:nullability", dict(script=script, data_structures=S, datapoints=dps, return_only_persistent=False), dict(script=script, data_structures=S),
+                 ["generated:nullability", "ids=" + rel, "left_nullable=%s" % ln, "right_nullable=%s" % rn], extra=dict(structures=S, rows={k: v.to_dict("records") for k, v in dps.items()}))
+    return part
+
+
 PROBE_F18 = """define hierarchical ruleset hr1 (variable rule Id_2) is
   a = b + c errorcode "x" errorlevel 1;
   b >= c - d
@@ -223,13 +255,13 @@ def _dispatch(fname, args):
 
 def run(ctx):
     ctx.rule = ("cases: executable corpus scripts (time_period_output_format cycled over the 4 formats) + Hypothesis-generated scripts (literal/clause grammar of C24, "
-                "dependency graphs of C12, dataset expressions and clause chains over generated structures with nested identifier sets and per-measure nullability, Time_Period identifiers in mixed spellings); non-trivial = some returned dataset has >=1 row and >=2 components; distinct by (source, script, format)")
+                "dependency graphs of C12, dataset expressions and clause chains over generated structures with nested identifier sets and per-measure nullability, Time_Period identifiers in mixed spellings) + every combination of dataset-dataset operator, identifier-set relation and declared/actual nullability of the operands; non-trivial = some returned dataset has >=1 row and >=2 components; distinct by (source, script, format)")
     exe = corpus.executable_cases(max_s=2.0 if ctx.quick else None, include_nondet=True)
     if ctx.quick:
         exe = corpus.rotate(exe, ctx.seed, 200)
     ids = [c["id"] for c in exe]
     n = 15 if ctx.quick else 1000
-    jobs = [("work_corpus", (ids[k::16], True)) for k in range(16)] + [("work_generated", (ctx.seed * 1009 + k, n)) for k in range(16)] + [("probe_known", ())]
+    jobs = [("work_corpus", (ids[k::16], True)) for k in range(16)] + [("work_generated", (ctx.seed * 1009 + k, n)) for k in range(16)] + [("probe_known", ()), ("work_nullability", ())]
     ctx.merge(core.pmap("checks.c10", "_dispatch", jobs, procs=16))
     ctx.assumptions = ["value conformance uses the documented output forms of docs/data_types.rst; an Integer cell may be an integral float (pandas float64 column with NaN)"]
 
@@ -242,7 +274,7 @@ def replay(ctx, path):
     if case["source"].startswith("generated:literals"):
         S, comps, rows = c24.gen_struct()
         evaluate(part, case["source"], dict(script=case["script"], data_structures=S, datapoints={"DS_1": eng.frame(comps, rows), "DS_2": eng.frame(comps, rows[:2])}, return_only_persistent=False), dict(script=case["script"], data_structures=S), [])
-    elif case["source"].startswith(("generated:structures", "generated:period_spellings")):
+    elif case["source"].startswith(("generated:structures", "generated:period_spellings", "generated:nullability")):
         comps = {d["name"]: d["DataStructure"] for d in case["structures"]["datasets"]}
         kw = dict(script=case["script"], data_structures=case["structures"], datapoints={n: eng.frame(comps[n], r) for n, r in case["rows"].items()}, return_only_persistent=False)
         if case.get("format", "vtl") != "vtl":
